@@ -92,7 +92,9 @@ def c02_stages(tier):
     st = [AT('compose-q', 'MC_AffTree_compose_q.cfg'), AT('compose-dim', 'MC_AffTree_compose_dim.cfg'),
           AT('compose-k4', 'MC_AffTree_compose_k4.cfg'), AT('compose-g2', 'MC_AffTree_compose_g2.cfg'),
           # terminals with a constant component that lies exactly on a threshold of the right operand (constant pulled-back predicates)
-          AT('compose-z', 'MC_AffTree_compose_z.cfg'), AT('compose-zd', 'MC_AffTree_compose_zd.cfg'), AT('compose-d3', 'MC_AffTree_compose_d3.cfg'), DR('compose')]
+          AT('compose-z', 'MC_AffTree_compose_z.cfg'), AT('compose-zd', 'MC_AffTree_compose_zd.cfg'), AT('compose-d3', 'MC_AffTree_compose_d3.cfg'),
+          # compose-k4r: terminals whose components coincide (pulled-back rows of a two-row predicate become equal or proportional)
+          AT('compose-k4r', 'MC_AffTree_compose_k4r.cfg'), DR('compose')]
     if tier == 'thorough':
         st += [AT('compose-t', 'MC_AffTree_compose_t.cfg'), AT('compose-dimt', 'MC_AffTree_compose_dimt.cfg'),
                AT('compose-k4t', 'MC_AffTree_compose_k4t.cfg')]
@@ -122,9 +124,22 @@ def regions_nontrivial(s):
     return {k: v for k, v in s.items() if k not in ('sc', 'exp')} if len(s.get('lhs', [])) >= 2 else None
 
 
+def regions_post(scripts, seed, tier):
+    """pscale variants, plus copies in which the tree is observed after an infeasible_elimination (cached states, removed branches)"""
+    out = pscale_variants(['tiny60', 'alt20'], 7)(scripts, seed, tier)
+    extra = []
+    for i, s in enumerate(scripts):
+        if i % 5 == 2 and len(s.get('lhs', [])) >= 2:
+            c = dict(s)
+            c['elim'] = True
+            c.pop('exp', None)
+            extra.append(c)
+    return out + extra
+
+
 def RG(name, cfg):
     return Stage(name, 'Trace_Regions', mc=('MC_AffTree', cfg), nontrivial=regions_nontrivial, shard_events=300, mc_workers=12,
-                 post=pscale_variants(['tiny60', 'alt20'], 7))
+                 post=regions_post)
 
 
 def c09_stages(tier):
@@ -310,6 +325,13 @@ def deep_random(kind):
                 t = _rand_tree2(rnd, 3, D_TERM22[:2], pmiss=0.0 if rnd.random() < 0.7 else 0.15, pleaf=0.2)
                 out.append({'fam': 'afftree', 'k': 2, 'q': 1, 'mode': 'history', 'lhs': _script_of(t),
                             'steps': [{'op': 'eliminate', 'rhs': [], 'aff': NOAFF}, {'op': 'reduce', 'rhs': [], 'aff': NOAFF}], 'faults': [], 'all': True})
+            elif kind == 'reducetwice':
+                # reduce ; an in-place change of the terminals that makes siblings identical (constant map) ; reduce again
+                t = _rand_tree2(rnd, 3, D_TERM22, pmiss=0.0 if rnd.random() < 0.7 else 0.15, pleaf=0.2)
+                const = rnd.choice([_aff([[0, 0], [0, 0]], [1, 2]), _aff([[1, 1], [1, 1]], [0, 0])])
+                out.append({'fam': 'afftree', 'k': 2, 'q': 1, 'mode': 'history', 'lhs': _script_of(t),
+                            'steps': [{'op': 'reduce', 'rhs': [], 'aff': NOAFF}, {'op': 'apply_func', 'rhs': [], 'aff': const},
+                                      {'op': 'reduce', 'rhs': [], 'aff': NOAFF}], 'faults': [], 'all': True})
             elif kind == 'regions':
                 t = _rand_tree2(rnd, 4, D_TERM22)
                 nn = len(_script_of(t))
@@ -324,7 +346,7 @@ def deep_random(kind):
 
 
 def DR(kind, trace='Trace_AffTree', shard=8):
-    nt = regions_nontrivial if kind == 'regions' else (history_nontrivial if kind in ('eliminate', 'elimreduce') else afftree_nontrivial)
+    nt = regions_nontrivial if kind == 'regions' else (history_nontrivial if kind in ('eliminate', 'elimreduce', 'reducetwice') else afftree_nontrivial)
     return Stage('deep-' + kind, trace, gen=deep_random(kind), nontrivial=nt, shard_events=shard)
 
 
@@ -378,9 +400,17 @@ def history_stages(tier):
     return [HS('history-q', 'MC_AffTree_history_q.cfg'), rnd_stage, rnd2_stage]
 
 
+def c03_stages(tier):
+    # pruning scenarios, plus the operation histories (pruned composition followed by elimination and the like) and pruned
+    # composition onto terminals with a constant component (pruneg-z)
+    return prune_stages(tier) + [HS('pruneg-z', 'MC_AffTree_pruneg_z.cfg')] + history_stages(tier)
+
+
 def c04_stages(tier):
     # compose-zd: constant terminals composed with partial, dimension-changing operands (every terminal must end up with the new output dimension)
-    return history_stages(tier) + prune_stages(tier)[:1] + [AT('compose-g2', 'MC_AffTree_compose_g2.cfg'), AT('compose-zd', 'MC_AffTree_compose_zd.cfg')]
+    # schema-q: the predefined trees are well-formed (one output dimension)
+    return history_stages(tier) + prune_stages(tier)[:1] + [AT('compose-g2', 'MC_AffTree_compose_g2.cfg'), AT('compose-zd', 'MC_AffTree_compose_zd.cfg'),
+                                                             DS('schema-q', 'MC_Distill_schema_q.cfg')]
 
 
 def c05_stages(tier):
@@ -486,7 +516,7 @@ def c07_stages(tier):
 
 def c08_stages(tier):
     # reduce-x: terminals that differ although their coefficient differences cancel in sum
-    st = [AT('reduce-q', 'MC_AffTree_reduce_q.cfg'), AT('reduce-p', 'MC_AffTree_reduce_p.cfg'), AT('reduce-x', 'MC_AffTree_reduce_x.cfg'), DR('reduce'), DR('elimreduce')]
+    st = [AT('reduce-q', 'MC_AffTree_reduce_q.cfg'), AT('reduce-p', 'MC_AffTree_reduce_p.cfg'), AT('reduce-x', 'MC_AffTree_reduce_x.cfg'), DR('reduce'), DR('elimreduce'), DR('reducetwice')]
     if tier == 'thorough':
         st += [AT('reduce-t', 'MC_AffTree_reduce_t.cfg')]
     return st
@@ -525,7 +555,7 @@ CHECKS = {
         'assumptions': ['E-universe integer data; q=1', 'grid: half-integers in [-2,2]^2 (contains every breakpoint of the alphabet)'],
     },
     'C03': {
-        'stages': prune_stages,
+        'stages': c03_stages,
         'level_text': 'infeasible_elimination (DFS with cached states, witness inheritance, LP oracle, deferred removal, forwarding) and pruned '
                       'composition are modelled step for step (spec/AffTreeL1.tla) and model-checked: the function is unchanged up to regions with '
                       'empty interior, caches are sound, elimination is effective and idempotent on total trees. Every scenario (single '
